@@ -601,6 +601,133 @@ def r14_4(ctx):
     ctx.floor(rid, n, 3, "temporary topology marks")
 
 
+BASE_DOMAINS = ("Polyhedron", "Grid", "BD_Shape", "Octagonal_Shape", "Box", "C_Polyhedron", "NNC_Polyhedron")
+DIM_TYPES = r"\b(Polyhedron|Grid|BD_Shape|Octagonal_Shape|Box|Constraint|Generator|Congruence|Grid_Generator|Constraint_System|Generator_System|Congruence_System|Grid_Generator_System|Linear_Expression|Variable|Variables_Set|Linear_Form)\b"
+R146_EXC = {
+    ("Box", "has_lower_bound", "var"): "documented precondition (Box_defs.hh: `an undefined behavior is obtained if this assumption is not met`); not exported to the C interface",
+    ("Box", "has_upper_bound", "var"): "as for has_lower_bound",
+    ("Polyhedron", "drop_some_non_integer_points", "vars"): "no exception is documented for this overload; the set is only searched (`vars_p->find(i)` for i below the dimension), so variables beyond the dimension are ignored and nothing is indexed with them",
+    ("BD_Shape", "concatenate_assign", "y"): "concatenation accepts an argument of any dimension (the result has the sum of the two)",
+    ("Octagonal_Shape", "concatenate_assign", "y"): "concatenation accepts an argument of any dimension (the result has the sum of the two)",
+    ("Polyhedron", "concatenate_assign", "y"): "concatenation accepts an argument of any dimension; only the size of the result is checked (check_space_dimension_overflow)",
+    ("Grid", "concatenate_assign", "y"): "concatenation accepts an argument of any dimension; only the size of the result is checked",
+    ("Box", "concatenate_assign", "y"): "concatenation accepts an argument of any dimension; only the size of the result is checked",
+}
+
+
+class _Validators:
+    def __init__(self, fx):
+        self.byname = {}
+        self.byq = {}
+        for f in fx.functions:
+            self.byname.setdefault(f.name, []).append(f)
+            self.byq.setdefault(f.q, []).append(f)
+        self.memo = {}
+
+    @staticmethod
+    def _mentions(f, n, names):
+        return n is not None and any(x["k"] == "ref" and x.get("n") in names for x in f.walk(n))
+
+    @staticmethod
+    def _is_throw(f, x):
+        return x["k"] == "throw" or (x["k"] in ("call", "mcall") and (f.call_name(x).startswith("throw_") or f.call_name(x).startswith("check_space_dimension")))
+
+    def validates(self, f, p, depth=3):
+        k = (id(f), p, depth)
+        if k in self.memo:
+            return self.memo[k]
+        self.memo[k] = False
+        # p and the locals derived from it (dimensions read off it, iterators over it, objects built from it)
+        dset = set([p])
+        changed = True
+        while changed:
+            changed = False
+            for v in f.walk():
+                if v["k"] == "var" and v.get("c") and v["n"] not in dset and any(self._mentions(f, f.deref(c_), dset) for c_ in v["c"]):
+                    dset.add(v["n"])
+                    changed = True
+        for x in f.walk():
+            if not self._is_throw(f, x):
+                continue
+            named = x["k"] in ("call", "mcall") and ("dimension_incompatible" in f.call_name(x) or "constraint_incompatible" in f.call_name(x) or "expression_too_complex" in f.call_name(x))
+            guards = [f.deref(a["c"][2]) for a in f.ancestors(x) if a["k"] == "if"]
+            dim_guard = any(self._mentions(f, g_, dset) and ("space_dim" in f.text(g_) or "dimension" in f.text(g_) or "size()" in f.text(g_) or ".id()" in f.text(g_)) for g_ in guards)
+            # a dimension check: a *dimension* helper the argument is passed to or guards, or any throw under a
+            # test of the argument's dimension
+            if (named and (self._mentions(f, x, dset) or any(self._mentions(f, g_, dset) for g_ in guards))) or dim_guard:
+                self.memo[k] = True
+                return True
+        if depth > 0:
+            for c in f.calls():
+                nm = f.call_name(c)
+                if not nm:
+                    continue
+                args = f.call_args(c)
+                idx = [i for i, a in enumerate(args) if a is not None and self._mentions(f, a, dset)]
+                recv = c["k"] == "mcall" and f.call_obj(c) is not None and self._mentions(f, f.call_obj(c), dset)
+                if not idx and not recv:
+                    continue
+                q_ = c.get("callee")
+                if c.get("dep") or (q_ or "").startswith("~"):
+                    q_ = None
+                if q_ and q_ in self.byq:
+                    cands = self.byq[q_]            # type-resolved callee
+                elif q_:
+                    continue                         # resolved, body not in the facts (standard library, ...)
+                else:
+                    # dependent call in a template pattern: same-named members of the caller's own class, or free functions
+                    cands = [g for g in self.byname.get(nm, []) if (g.clsn == f.clsn and f.clsn) or not g.clsn]
+                # compatibility with the receiver is checked inside the domain classes (or the generic wrap_assign),
+                # not in the constructors of the argument's own class
+                cands = [g for g in cands if g.clsn in BASE_DOMAINS or (not g.clsn and g.name == "wrap_assign")]
+                cands = sorted(cands, key=lambda g: (len(g.params) != len(args), bool(g.flag("pattern"))))[:24]
+                for g in cands:
+                    if g is f or len(g.params) < len(args):
+                        continue
+                    if any(i < len(g.params) and self.validates(g, g.params[i]["n"], depth - 1) for i in idx):
+                        self.memo[k] = True
+                        return True
+                    # p is the receiver of a member that checks its own dimension against an argument's
+                    if recv and any(self.validates(g, q["n"], depth - 1) for q in g.params if q["n"] and re.search(DIM_TYPES, q["t"])):
+                        self.memo[k] = True
+                        return True
+        return False
+
+
+def r14_6(ctx):
+    rid = "R14.6"
+    ctx.rule(rid, "arguments are validated: every public member of the five simple domains (Polyhedron, Grid, BD_Shape, Octagonal_Shape, Box) that takes an argument with a space dimension (another domain element, a constraint / generator / congruence or a system of them, a linear expression, a variable or variable set) reaches, for that argument, a throw / throw_*() / check_space_dimension_overflow() that the argument (or a value derived from it) guards or is passed to — in the member itself or, following the argument through calls, in a callee within depth 3. The private workers only assert these conditions and the suite runs without assertions, so a public member that forgets the check indexes rows with a foreign dimension instead of throwing std::invalid_argument")
+    fx = ctx.extract(units_alloc())
+    V = _Validators(fx)
+    # the generic wrap_assign lives in a header of its own
+    for g in ctx.extract([F.driver_unit("all_headers.cc", file_re=r"wrap_assign\.hh")]).functions:
+        V.byname.setdefault(g.name, []).append(g)
+        V.byq.setdefault(g.q, []).append(g)
+    n = 0
+    seen = set()
+    for f in fx.functions:
+        if f.clsn not in BASE_DOMAINS or f.kind != "method" or f.j.get("access") != "public":
+            continue
+        key = (f.clsn, f.name, len(f.params), f.relfile, f.line)
+        if key in seen or f.name in ("m_swap", "operator=", "swap", "ascii_load", "ascii_dump", "print"):
+            continue
+        seen.add(key)
+        for q in f.params:
+            if not q["n"] or not re.search(DIM_TYPES, q["t"]):
+                continue
+            if re.search(r"(^|[^t] )(Parma_Polyhedra_Library::)?Generator &$", q["t"]) and "const" not in q["t"]:
+                continue      # output parameter (the point where the extremum is reached)
+            n += 1
+            inst = "%s::%s(%s)" % (f.clsn, f.name, q["n"])
+            if V.validates(f, q["n"]):
+                ctx.ok(rid, inst, f.where())
+            elif (f.clsn, f.name, q["n"]) in R146_EXC:
+                ctx.excepted(rid, inst, f.where(), R146_EXC[(f.clsn, f.name, q["n"])])
+            else:
+                ctx.violation(rid, inst, f.where(), "no validation of `%s` (%s) is reached from this public member: an argument of the wrong dimension goes on to workers that only assert compatibility" % (q["n"], q["t"][-50:]))
+    ctx.floor(rid, n, 350, "dimensioned arguments of public members")
+
+
 def run(ctx):
     ctx.explanation = ("C14 structural clauses: validation precedes mutation, allocations are owned before anything can throw, every cycle of the "
                        "checkpointed loops passes an abandonment checkpoint; decides these ordering/ownership clauses, not leak-freedom for every failing allocation")
@@ -610,6 +737,7 @@ def run(ctx):
     r14_2(ctx)
     r14_1(ctx)
     r14_4(ctx)
+    r14_6(ctx)
 
 
 
